@@ -13,6 +13,8 @@ ENGINES = [
          kind_free_text="single-instruction enumerator over all 65536 opcodes x bounded state alphabet; two glue libraries (implementation vs frozen reference) behind a C ABI; decode introspection through a generated recording visitor; harness-owned choice engine inside the real test generator"),
     dict(name="text", path="engines/text", serves_properties=["C02", "C05", "C20"],
          kind_free_text="exhaustive enumeration over all 65536 first words through the real disassembler, parser, C binding and makedsp1; decode introspection and execution through libimpl.so"),
+    dict(name="sched", path="engines/sched", serves_properties=["C19"],
+         kind_free_text="preemption-bounded stateless model checker: the two logical threads run the real code as coroutines under a scheduler that owns every pthread_mutex operation (link-time interposition), latch access (hook 3), API-call and instruction boundary; plus a free-running ThreadSanitizer build of the same bodies"),
 ]
 
 # id -> (engine, technique, level text, level note, design ref)
@@ -85,6 +87,10 @@ CLAIMED = {
             "All histories of length <= 2 over a 34-call API alphabet are executed on three instances whose heap is pre-filled with different patterns (with and without an initial Reset), and every pair (h1 of length <= 2, h2 of length <= 1) is executed as h1;Reset;h2 and compared with fresh;Reset;h2; the observation covers every modelled component (registers incl. hidden banks, latches, MIU, ICU incl. vectors, APBP, timers, audio port, DMA, AHBM incl. burst queues, the whole memory, host getters, callback log). Uninitialised members and incomplete resets are history-dependent bugs that need exactly this kind of exhaustive pairing to show.",
             "Trusted: operator-new replacement as the allocation seam (malloc'd memory is not filled), g++, -fno-access-control observation of private state. Raw backing words of unimplemented MMIO fields and DMA transfer-internal counters are not observed.",
             "DESIGN.md section 4, C17"),
+    "C19": ("sched", "stateless model checking of the real code under a controlled scheduler: DFS over all schedules of six two-thread harnesses up to a preemption bound (iterative 0..3, thorough 0..5), state-hash pruning at choice points, per-schedule oracle; data races by ThreadSanitizer in a separate free-running pass of the same bodies",
+            "Every interleaving of the host API calls and the DSP's instruction stream at the granularity of lock operations, latch accesses and instruction/call boundaries is executed up to the preemption bound, so lost updates, check-then-act windows, missed interrupt deliveries and (self-)deadlocks that need one to three specific preemptions are found deterministically and replayed from a recorded schedule; unsynchronised accesses, which a serialising scheduler cannot see, are caught by ThreadSanitizer on the same bodies running free.",
+            "Trusted: the scheduler (coroutines, mutex ownership model incl. recursive mutexes, yield/spin detection), glibc's pthread_mutex_t kind field, ThreadSanitizer, g++/clang. Sequential consistency assumed for the explored interleavings; two threads; DSP horizon 120-160 instructions.",
+            "DESIGN.md section 4, C19"),
     "C20": ("isa", "exhaustive enumeration of all 65536 values of each of the 19 status/config words from a state alphabet through the real pseudo-register accessors and instruction paths, against a hand-written bit-layout table (field-by-field equality of the whole register file, alias read-back, depth-2 aliased writes)",
             "Each word has only 65536 values, so write/read-back/frame behaviour is decided for every value from every base state, and from every 1-field deviation for a value alphabet; the oracle is a layout table applied to the flattened register file, so a wrong bit position, a field written that the word does not map, a read-only bit that becomes writable or an alias that drifts apart is found whatever the value.",
             "Trusted: the layout table in engines/isa/c20_words.h (transcribed from the TeakLite/Teak register layouts; cross-checked against the flag legends printed by test_verifier), the glue flattening, g++. The annotated disassembler's reading of ar/arp is covered with C05's text engine.",
